@@ -107,7 +107,7 @@ func mapping(r *ev.Run, targets []string) {
 	for i, p := range all {
 		*p = 1000 + float64(i)
 	}
-	var want []float64 // selected fields in struct declaration order
+	var want []float64 // tags of the selected fields
 	sel := map[string]bool{}
 	for _, t := range targets {
 		sel[t] = true
@@ -129,12 +129,32 @@ func mapping(r *ev.Run, targets []string) {
 		r.Violation("C19:vector-length", wit, fmt.Sprintf("targets %v: ToVector has %d elements, the selected fields have %d floats", targets, len(vec), len(want)))
 		return
 	}
+	// the vector is a bijection onto the selected coefficients: every selected tag exactly once and
+	// nothing else. In which ORDER the coefficients are laid out is the tuner's choice.
+	wantSet := map[float64]bool{}
+	for _, t := range want {
+		wantSet[t] = true
+	}
+	seenTag := map[float64]bool{}
 	for i := range vec {
-		if vec[i] != want[i] {
+		if !wantSet[vec[i]] || seenTag[vec[i]] {
 			wit.Index = i
-			r.Violation("C19:ToVector-wrong-coefficient", wit, fmt.Sprintf("targets %v: ToVector[%d] = tag %v, expected tag %v", targets, i, vec[i], want[i]))
+			why := "is not the tag of a coefficient of the selected groups"
+			if seenTag[vec[i]] {
+				why = "appears twice in the vector"
+			}
+			r.Violation("C19:ToVector-wrong-coefficient", wit, fmt.Sprintf("targets %v: ToVector[%d] = tag %v %s", targets, i, vec[i], why))
 			return
 		}
+		seenTag[vec[i]] = true
+	}
+	byTag := map[float64]*float64{}
+	for _, p := range all {
+		byTag[*p] = p
+	}
+	slot := make([]*float64, len(vec)) // the coefficient ToVector read at each index
+	for i := range vec {
+		slot[i] = byTag[vec[i]]
 	}
 	n := 0
 	for i, p := range e.TunedParams(targets) {
@@ -171,6 +191,14 @@ func mapping(r *ev.Run, targets []string) {
 		before[i] = *p
 	}
 	e.SetVector(tuning.VectorFromSlice(append([]float64(nil), perm...)), targets)
+	// writing index i must reach the coefficient that was read at index i
+	for i := range perm {
+		if *slot[i] != perm[i] {
+			wit.Index = i
+			r.Violation("C19:SetVector-ToVector-address-different-coefficients", wit, fmt.Sprintf("targets %v: ToVector[%d] read the coefficient tagged %v; SetVector wrote %v at index %d but that coefficient now holds %v", targets, i, vec[i], perm[i], i, *slot[i]))
+			return
+		}
+	}
 	back := e.ToVector(targets).VectorToSlice()
 	for i := range perm {
 		if back[i] != perm[i] {
